@@ -210,6 +210,9 @@ def check(run):
     C05.awaitables_fresh(R, RID='C01.length')
     join(R)
     C05.track(R, RID='C01.bookkeeping')
+    with R.as_rule('C01.bookkeeping'):
+        C05.dfa(R)               # a legal text message is not refused: the validator is the RFC 3629 automaton, sees every
+        C05.loop(R)              # byte once, and keeps its state between fragments and reads
     from . import C06
     with R.as_rule('C01.dispatch'):
         C05.strict(R)            # Text.text / Close.reason are the strict UTF-8 decode of the whole payload
